@@ -280,7 +280,7 @@ def e2e_part(spec, part):
                 p = rnd.randrange(1, 101)
                 s1 = rnd.randrange(0, 101)
                 s2 = (s1 + rnd.randrange(1, 100)) % 101
-                for m, s_ in ((OM.ECO_CHARGE, s1), (OM.ECO_CHARGE, s2), (OM.ECO_DISCHARGE, s1), (OM.ECO_DISCHARGE, s2), (OM.ECO_CHARGE, s2)):
+                for m, s_ in ((OM.ECO_CHARGE, s1), (OM.ECO_CHARGE, s2), (OM.ECO_CHARGE, 100), (OM.ECO_CHARGE, 0), (OM.ECO_DISCHARGE, s1), (OM.ECO_DISCHARGE, s2), (OM.ECO_CHARGE, s2)):
                     try:
                         await inv.set_operation_mode(m, p, s_)
                     except Exception as e:      # noqa   (a setter that raises has not succeeded, e.g. undecodable prior group on ES)
